@@ -157,8 +157,23 @@ def run_library(acc, d, dmx, strategy, name, wl, iwl, r, lib, n, single, case_id
     fq.write_fastq(files, pairs)
     target = FastqHandle(os.path.join(sub, 'demultiplexed'), not single)
     out = io.StringIO()
-    with contextlib.redirect_stdout(out):
-        processed, yields = dmx.demultiplex(files, strategies=[strategy], targetFile=target, rejectHandle=None, library=lib)
+    # a refusal is observed as a ValueError leaving the serialiser (its wording is the tool's business)
+    from singlecellmultiomics.modularDemultiplexer import baseDemultiplexMethods as bdm
+    refusals = [0]
+    orig_asfastq = bdm.TaggedRecord.asFastq
+
+    def observed_asfastq(self_, *a_, **k_):
+        try:
+            return orig_asfastq(self_, *a_, **k_)
+        except ValueError:
+            refusals[0] += 1
+            raise
+    bdm.TaggedRecord.asFastq = observed_asfastq
+    try:
+        with contextlib.redirect_stdout(out):
+            processed, yields = dmx.demultiplex(files, strategies=[strategy], targetFile=target, rejectHandle=None, library=lib)
+    finally:
+        bdm.TaggedRecord.asFastq = orig_asfastq
     target.close()
     byid = {p['id']: p for p in pairs}
     mates = ['R1'] + ([] if single else ['R2'])
@@ -210,11 +225,13 @@ def run_library(acc, d, dmx, strategy, name, wl, iwl, r, lib, n, single, case_id
     # pairs whose header was refused by the demultiplexer itself (ValueError in asFastq -> generic exception path) are loud as well
     n_written = len(disk[0])
     txt = out.getvalue()
-    loud_in_demux = len(re.findall(r'longer than 25[45] characters', txt))
+    # one refusal per pair: the first mate that does not fit raises, the pair is not written
+    loud_in_demux = max(len(re.findall(r'longer than 25[45] characters', txt)), refusals[0])
     if loud_in_demux:
         acc.count('length:refused_loudly', loud_in_demux)
     qf = QueryNameFlagger()
     example = None
+    name_vocabulary = set(k for _, names_ in stored for nm_ in names_ for k in fq.parse_out_header('@' + nm_))
     with pysam.AlignmentFile(bam, check_sq=False) as f:
         reads = list(f.fetch(until_eof=True))
     per = len(mates)
@@ -305,10 +322,12 @@ def run_library(acc, d, dmx, strategy, name, wl, iwl, r, lib, n, single, case_id
                 if str(got) != str(val):
                     acc.violate(f'field-not-restored:{tag}', f'{name} lib {lib!r} pair {pid} mate {mi + 1}: {tag}={got!r} expected {val!r}; header {names[mi][:160]}',
                                 {'header': names[mi], 'library': lib, 'tag': tag, 'got': str(got), 'expected': str(val), 'reads': rd})
-            # nothing may come out of the decoder that was not encoded in THIS read's name (state must not leak between reads)
+            # no field of ANOTHER read's name may come out of the decoder (state must not leak between reads): a tag that read names of this
+            # library can carry, but that is not in THIS read's name, must not be on this read. Tags no read name carries (derived ones such as
+            # MI, SM, RG or whatever a later version adds) are the decoder's business.
             allowed = set(t0) | {'MI', 'QM', 'ah', 'SM', 'BK', 'RG', 'bi'}
             for tg, _ in a.get_tags():
-                if tg not in allowed:
+                if tg not in allowed and tg in name_vocabulary:
                     acc.violate('tag-not-encoded-in-this-name', f'{name} pair {pid} mate {mi + 1}: tag {tg}={a.get_tag(tg)!r} was never encoded in its read name '
                                                                 f'{names[mi][:150]}', {'header': names[mi], 'library': lib, 'tag': tg})
                     break
